@@ -10,6 +10,7 @@ import (
 	"os"
 	"os/exec"
 	"path/filepath"
+	"strconv"
 	"strings"
 	"testing"
 	"time"
@@ -44,6 +45,54 @@ func TestC13(t *testing.T) {
 			os.WriteFile(path, content, 0o755)
 		}
 		var o spec.C13Obs
+		if len(p.Steps) > 0 {
+			sc := &plugin.SecureConfig{Checksum: p.Checksum, Hash: newHash(p.Hash)}
+			for i, st := range p.Steps {
+				body := content
+				if st == "tampered" {
+					body = append(append([]byte(nil), content...), '#', 'x')
+				}
+				// replace the file the way an upgrade or an attacker would: atomically
+				tmp := path + ".new"
+				os.WriteFile(tmp, body, 0o755)
+				os.Rename(tmp, path)
+				md := filepath.Join(d, "m"+strconv.Itoa(i))
+				os.MkdirAll(md, 0o755)
+				var so spec.C13StepObs
+				h := newHash(p.Hash)
+				h.Write(body)
+				so.FileSum = h.Sum(nil)
+				if p.CallerReset {
+					sc.Hash.Reset()
+				}
+				cfg := baseClientConfig()
+				cfg.StartTimeout = 600 * time.Millisecond
+				hostSetFor(cfg, "netrpc")
+				cfg.Cmd = exec.Command(path)
+				cfg.Cmd.Env = []string{"VERIF_MARKER_DIR=" + md}
+				cfg.SecureConfig = sc
+				cl := plugin.NewClient(cfg)
+				_, err := cl.Start()
+				so.Err = errStr(err)
+				so.IsMismatch = errors.Is(err, plugin.ErrChecksumsDoNotMatch) || (err != nil && strings.Contains(err.Error(), plugin.ErrChecksumsDoNotMatch.Error()))
+				so.ProcessSet = cfg.Cmd.Process != nil
+				for k := 0; k < 1000 && so.ProcessSet; k++ {
+					if _, err := os.Stat(filepath.Join(md, "launched")); err == nil {
+						break
+					}
+					time.Sleep(10 * time.Millisecond)
+				}
+				_, merr := os.Stat(filepath.Join(md, "launched"))
+				so.Marker = merr == nil
+				if cfg.Cmd.Process != nil {
+					cfg.Cmd.Process.Kill() // the script only sleeps; no need to wait for the start timeout
+				}
+				within(20*time.Second, cl.Kill)
+				o.Steps = append(o.Steps, so)
+			}
+			e.Ret("h", "Start", o)
+			return
+		}
 		if h := newHash(p.Hash); h != nil {
 			h.Write(content)
 			o.FileSum = h.Sum(nil)
